@@ -151,7 +151,9 @@ def arena_bounds(ctx, r):
     cmpn = sw["c"]
     while cmpn["k"] == "Paren":
         cmpn = cmpn["e"]
-    start_l = [x for x in q.walk(f["body"]) if x["k"] == "Local" and q.pat_bindings(x["pat"]) == ["start"] and x.get("init") is not None]
+    # the write position: the variable handed to `.add(..)` on the buffer's pointer, whatever it is called
+    posv = next((q.show(x["args"][0]) for x in q.walk(f["body"]) if x["k"] == "MethodCall" and x["m"] == "add" and x["args"] and "as_mut_ptr" in q.show(x["recv"])), "start")
+    start_l = [x for x in q.walk(f["body"]) if x["k"] == "Local" and q.pat_bindings(x["pat"]) == [posv] and x.get("init") is not None]
     if cmpn["k"] == "Binary" and cmpn["op"] in (">", ">=") and start_l:
         need = terms(start_l[0]["init"]) | {"size"}
         have = terms(cmpn["a"])
@@ -166,7 +168,7 @@ def arena_bounds(ctx, r):
          "after replacing current_buf the write offset still counts from the old buffer: the bounds check above was made against the old length, so the write lands past the end of the new buffer when the allocation is larger than the previous buffer (a u8 then a u64 on an empty arena)",
          sample="alloc: offset = 0 in the buffer-switch branch")
     # start is computed after the switch from the (possibly reset) offset
-    starts = [x for x in q.walk(f["body"]) if x["k"] == "Local" and q.pat_bindings(x["pat"]) == ["start"]]
+    starts = [x for x in q.walk(f["body"]) if x["k"] == "Local" and q.pat_bindings(x["pat"]) == [posv]]
     r.ob(bool(starts) and starts[0]["l"] > sw["l"] and "offset" in q.show(starts[0]["init"]), "arena.rs:alloc:start-before-switch", ARENA, f["l"], "the write position must be computed after the buffer switch from the current offset")
     # capacity of the new buffer covers size and padding
     caps = [q.show(x["args"][0]) for x in q.walk(sw["t"]) if x["k"] == "MethodCall" and x["m"] == "max"]
@@ -178,7 +180,7 @@ def arena_bounds(ctx, r):
     r.ob(pushed and not bad, "arena.rs:old-buffers-dropped", ARENA, sw["l"], f"replaced buffers must be kept alive for the arena's lifetime (pushed: {pushed}; other operations on old_bufs: {bad})", sample="alloc: old buffer pushed to old_bufs")
     # the offset advances past the value
     adv = [x for x in q.walk(f["body"]) if x["k"] == "Assign" and q.show(x["a"]).endswith(".offset")]
-    r.ob(any(q.show(x["b"]).replace(" ", "") == "(start+size)" for x in adv), "arena.rs:alloc:offset-advance", ARENA, f["l"], "after a write the offset must advance to start + size (allocations must not overlap)", sample="alloc: offset = start + size")
+    r.ob(any(q.show(x["b"]).replace(" ", "") == f"({posv}+size)" for x in adv), "arena.rs:alloc:offset-advance", ARENA, f["l"], "after a write the offset must advance to start + size (allocations must not overlap)", sample="alloc: offset = start + size")
 
 
 @rule("ARENA-ALIGN", ["C38"], "padding is computed from the address (the byte buffers have alignment 1) and recomputed after a buffer switch")
